@@ -41,11 +41,14 @@ def gen_case(rng, big=False):
         for _ in range(rng.randint(0, 3)):
             fn = rng.choice(FILENAMES)
             files[os.path.join(d, fn) if d else fn] = rng.choice(CONTENTS)
-    # hidden files: never listed, never offending
+    # hidden files: unlisted ones are never offending; *listed* ones are entries like any other
     hidden = {}
     if rng.random() < 0.4:
         d = rng.choice(dirs)
         hidden[os.path.join(d, '.hidden') if d else '.hidden'] = b'h'
+    if rng.random() < 0.35:
+        d = rng.choice(dirs)
+        files[os.path.join(d, '.listed') if d else '.listed'] = rng.choice(CONTENTS[1:])
     # an ignored directory (with unlisted content) and a look-alike sibling that is listed
     ignores = []
     if 'foo' in dirs and rng.random() < 0.7:
@@ -241,6 +244,65 @@ def run_case(case, kinds, rng, checks):
     return out, desc, bool(expected)
 
 
+def run_mtime_cases(rng):
+    """C01 last sentence: with a last-verification mtime only files that are not newer than it and whose
+    size is unchanged may be skipped -- files altered at the same size with mtime just above / at / below it"""
+    from gemato.recursiveloader import ManifestRecursiveLoader
+    from gemato.verify import verify_path
+    from gemato.manifest import new_manifest_entry
+    from gemato.exceptions import ManifestMismatch
+    out = []
+    n = 0
+    with C.Scratch() as root:
+        os.makedirs(os.path.join(root, 'sub'))
+        files = {'a': b'aaaa', 'sub/b': b'bbbb'}
+        for f, c in files.items():
+            with open(os.path.join(root, f), 'wb') as fh:
+                fh.write(c)
+        C.write_manifest(os.path.join(root, 'Manifest'), [C.entry_line('DATA', f, c, ['SHA1']) for f, c in files.items()])
+        T = 1500000000
+        for delta_ns, newer in ((500000000, True), (1000000, True), (1, True), (0, False), (-1, False), (-500000000, False),
+                                (1000000000, True), (999999999, True)):
+            for f in files:
+                p = os.path.join(root, f)
+                with open(p, 'wb') as fh:
+                    fh.write(b'XXXX')          # altered, same size
+                os.utime(p, ns=(T * 10 ** 9 + delta_ns, T * 10 ** 9 + delta_ns))
+                real_newer = os.stat(p).st_mtime > T
+                for lm in (T, float(T)):
+                    for how in ('tree', 'sub', 'direct'):
+                        try:
+                            if how == 'direct':
+                                e = new_manifest_entry('DATA', f, 4, C.digests(files[f], ['SHA1']))
+                                ok = verify_path(p, e, last_mtime=lm)[0]
+                            else:
+                                m = ManifestRecursiveLoader(os.path.join(root, 'Manifest'))
+                                m.assert_directory_verifies('' if how == 'tree' else 'sub', last_mtime=lm)
+                                ok = True
+                        except ManifestMismatch:
+                            ok = False
+                        n += 1
+                        if how == 'sub' and not f.startswith('sub/'):
+                            continue
+                        if real_newer and ok:
+                            out.append({'what': 'C01 file %s altered (same size) with mtime = last_mtime %+d ns was accepted (%s, last_mtime=%r)'
+                                        % (f, delta_ns, how, lm), 'key': 'mtime-newer-skipped', 'props': ['C01']})
+                # a size change is never skipped
+                with open(p, 'wb') as fh:
+                    fh.write(b'XXXXX')
+                os.utime(p, ns=((T - 100) * 10 ** 9, (T - 100) * 10 ** 9))
+                try:
+                    m = ManifestRecursiveLoader(os.path.join(root, 'Manifest'))
+                    m.assert_directory_verifies('', last_mtime=T)
+                    out.append({'what': 'C01 file %s with changed size and old mtime was accepted' % f, 'key': 'mtime-size-skipped', 'props': ['C01']})
+                except ManifestMismatch:
+                    pass
+                n += 1
+                with open(p, 'wb') as fh:
+                    fh.write(files[f])
+    return out, n
+
+
 def run_chain_tamper(rng, depth):
     """C02: change a data file and recompute every Manifest up to level k; the untouched level above detects it"""
     from gemato.recursiveloader import ManifestRecursiveLoader
@@ -276,9 +338,22 @@ def run_chain_tamper(rng, depth):
                 f.write(b'tampered%d' % k)
             rebuild(k)           # attacker recomputes levels k..depth; level k-1 untouched
             desc = {'depth': depth, 'formats': fmts, 'recomputed_from_level': k}
-            for api in ('dir', 'path', 'entry', 'subdir'):
+            for api, jobs in [(a, j) for a in ('dir', 'path', 'entry', 'subdir', 'dist', 'cli-sub') for j in (None, 1, 2)]:
                 try:
-                    m = ManifestRecursiveLoader(top)
+                    if api == 'cli-sub':
+                        st = C.run_cli(['verify'] + (['-j', str(jobs)] if jobs else []) + [os.path.join(root, dirs[-1])])
+                        if st == 0:
+                            out.append(dict(desc, what='C02 tampering below level %d not detected by gemato verify -j %s <subdir>' % (k, jobs),
+                                            key='chain-cli', props=['C02']))
+                        continue
+                    kw = {} if jobs is None else {'max_jobs': jobs}
+                    m = ManifestRecursiveLoader(top, **kw)
+                    if rng.random() < 0.5:
+                        m.find_timestamp()
+                    if api == 'dist':
+                        if m.find_dist_entry('nothing-1.tar', dirs[-1]) is None and m.find_path_entry(leaf) is not None:
+                            raise AssertionError('lookup answered from an unverified Manifest')
+                        continue
                     if api == 'dir':
                         m.assert_directory_verifies('')
                     elif api == 'path':
@@ -289,10 +364,12 @@ def run_chain_tamper(rng, depth):
                         e = m.find_path_entry(leaf)
                         if e is None:
                             raise ManifestMismatch(leaf, None, [])
-                    out.append(dict(desc, what='C02 tampering below level %d not detected by %s' % (k, api),
+                    out.append(dict(desc, what='C02 tampering below level %d not detected by %s (max_jobs=%s)' % (k, api, jobs),
                                     key='chain-' + api, props=['C02']))
                 except ManifestMismatch:
                     pass
+                except AssertionError as e:
+                    out.append(dict(desc, what='C02 %s (max_jobs=%s, level %d)' % (e, jobs, k), key='chain-dist', props=['C02']))
                 except BaseException as e:
                     out.append(dict(desc, what='C02 unexpected %s from %s' % (type(e).__name__, api), key='chain-exc',
                                     props=['C02', 'C18']))
@@ -405,6 +482,9 @@ def main():
         for _ in range(2 if tier == 'quick' else 10):
             viol.extend(run_chain_tamper(rng, depth))
             chain += depth * 4
+    v, k = run_mtime_cases(rng)
+    viol.extend(v)
+    evals += k
     faults = 0
     for _ in range(3 if tier == 'quick' else 30):
         v, k = run_fault_injection(rng)
